@@ -16,6 +16,16 @@ if [ "$VERIF_REPO" != "/repo" ]; then CFG=(--config "paths=[\"$VERIF_REPO\"]"); 
 mkdir -p "$VERIF_TARGET"
 LOG=$VERIF_TARGET/build.$$.log
 if ! cargo build --release --offline -q "${CFG[@]}" >"$LOG" 2>&1; then
+  # C18's type-level half: when Send / Sync are lost the harness itself (which polls evaluation
+  # futures on several threads) stops compiling; the gate crate then gives the verdict
+  if [ "${1:-}" = replay ] && grep -q '"kind": "gate"' "${2:-/dev/null}" 2>/dev/null; then
+    python3 "$VDIR/tools/c18_gate_fallback.py" quick "$LOG"; RC=$?
+    if [ $RC -eq 1 ]; then rm -f "$LOG"; exit 1; fi
+  fi
+  if [ "${1:-}" = C18 ] && grep -qE 'cannot be (sent|shared) between threads safely|is not `(Send|Sync)`' "$LOG"; then
+    python3 "$VDIR/tools/c18_gate_fallback.py" "${2:-quick}" "$LOG"; RC=$?
+    if [ $RC -eq 1 ]; then rm -f "$LOG"; exit 1; fi
+  fi
   echo "MACHINERY-ERROR build of the harness against $VERIF_REPO failed (log: $LOG)"
   tail -30 "$LOG"
   exit 2
